@@ -137,6 +137,10 @@ pub fn pool(seed: u64, scratch: &std::path::Path, write_files: bool) -> Vec<Prog
         let _ = std::fs::create_dir_all(&inc);
         let _ = std::fs::write(inc.join("common.inc"), ".equ COMMON = 0x33\n.macro common_mac\nldi @0, COMMON\n.endm\n#define COMMON_FLAG\n");
         let _ = std::fs::write(inc.join("dev.inc"), ".device ATmega16\n");
+        // part files for parts the table does not know, named so that several table names begin them
+        for n in ["ATmega88PA", "ATmega168PA", "ATmega328PB", "ATmega162V", "ATmega8515L", "ATtiny2313AV", "ATmega1280X"] {
+            let _ = std::fs::write(inc.join(format!("{}def.inc", n)), format!("; part file\n.device {}\n.equ RAMEND_OF_IT = 0x4ff\n", n));
+        }
     }
     // a second directory holding equally named files with other contents: a cache keyed by the name
     // as written (instead of the resolved path) would hand one build the other build's file
@@ -159,6 +163,13 @@ pub fn pool(seed: u64, scratch: &std::path::Path, write_files: bool) -> Vec<Prog
         ("file-flag-without-include", ".ifdef COMMON_FLAG\n.dw 1\n.else\n.dw 2\n.endif\nldi r16, 1\n"),
         ("file-includes-device", ".include \"dev.inc\"\njmp 5\n"),
         ("file-missing-include", ".include \"absent.inc\"\n"),
+        ("file-part-unknown-88pa", ".include \"ATmega88PAdef.inc\"\n.dseg\nv: .byte 2\n.cseg\n\tldi r30, low(v)\n\tldi r31, high(v)\n\tjmp 0\n"),
+        ("file-part-unknown-168pa", ".include \"ATmega168PAdef.inc\"\n.dseg\nv: .byte 2\n.cseg\n\tldi r30, low(v)\n\tjmp 0\n"),
+        ("file-part-unknown-328pb", ".include \"ATmega328PBdef.inc\"\n.dseg\nv: .byte 2\n.cseg\n\tldi r30, low(v)\n\tmul r0, r1\n"),
+        ("file-part-unknown-162v", ".include \"ATmega162Vdef.inc\"\n.dseg\nv: .byte 2\n.cseg\n\tldi r30, low(v)\n\tjmp 0\n"),
+        ("file-part-unknown-8515l", ".include \"ATmega8515Ldef.inc\"\n.dseg\nv: .byte 2\n.cseg\n\tldi r30, low(v)\n\tjmp 0\n"),
+        ("file-part-unknown-2313av", ".include \"ATtiny2313AVdef.inc\"\n.dseg\nv: .byte 2\n.cseg\n\tldi r30, low(v)\n"),
+        ("file-part-unknown-1280x", ".include \"ATmega1280Xdef.inc\"\n.dseg\nv: .byte 2\n.cseg\n\tldi r30, low(v)\n\teijmp\n"),
     ] {
         let p = scratch.join(format!("{}.asm", name));
         if write_files {
